@@ -157,7 +157,9 @@ func (e *Engine) scanStoreTarget(addr ssa.Value, li *loopInfo, ms *modSet, inCal
 			return
 		}
 		c, s := e.elemComp(sl.Elem())
-		e.addCompWhole(ms, c, s)
+		// only the region of that slice changes when the slice value itself
+		// is loop-invariant (addField falls back to the whole component)
+		e.addField(ms, c, s, b.X, li, inCallee)
 		return
 	}
 	// pointer value: struct field or plain pointer cell
@@ -506,6 +508,13 @@ func (e *Engine) loopEnter(st *State, fr *Frame, b *ssa.BasicBlock, li *loopInfo
 	}
 	if ls != nil {
 		env := e.invEnv(st, fr, b)
+		if len(ls.InitHints) > 0 {
+			henv := e.invEnv(st, fr, b)
+			henv.assuming = true
+			for _, h := range ls.InitHints {
+				st.assume(e.evalBool(henv, h))
+			}
+		}
 		for i, inv := range ls.Invariants {
 			label := inv.Label
 			if label == "" {
@@ -614,6 +623,9 @@ func (e *Engine) applyModSet(st *State, ms *modSet, resolve func(ssa.Value) *Val
 			for _, bv := range bases {
 				bt := resolve(bv)
 				ref := e.valTerm(bt)
+				if _, isSl := bt.Ty.Underlying().(*types.Slice); isSl {
+					ref = sx("sl_reg", ref) // element component: indexed by region
+				}
 				delete(st.privClean, ref)
 				delete(st.privClean, "holds:"+ref)
 				fv := e.freshName("loop$" + strings.Trim(c, "|"))
